@@ -2,6 +2,7 @@
 //! verif-harness: runs the real aiken/uplc code next to the Lean models.
 //!   verif-harness <sub-command> [--seed N] [--tier quick|thorough] [--out file] [--replay file]
 mod c13;
+mod c13gen;
 mod c15;
 mod driver;
 mod prng;
@@ -53,6 +54,9 @@ fn main() {
         "c15-names" => c15::names(&ctx),
         "c13-show" => c13::show(&ctx, &extra),
         "c13-prec" => c13::prec(&ctx, &extra),
+        "c13-roundtrip" => c13::roundtrip(&ctx, &extra),
+        "c20-aiken-text" => c13::c20_aiken_text(&ctx, &extra),
+        "c20-one" => c13::c20_one(&extra),
         other => {
             eprintln!("unknown sub-command {other}");
             std::process::exit(2);
